@@ -349,4 +349,47 @@ theorem C12_readers_agree_rlimit (k v : Text) (hk : k ∈ reqValues T "rlimit" "
         Ref.read T (renderRule (Aa.Parse.rlimitRule k v) (padOf [])) = some r ∧ r = Aa.Parse.rlimitRule k v :=
   ⟨_, Aa.Parse.parse_rlimit T k v (rlimit_key_words k hk) (Ref.rlimitValueOk_capW v hv), C12_rlimit_all k v hk hv, rfl⟩
 
+/-- the table facts the library-parser theorems ask for (the same facts `Props/C09` proves for its own copy of the tables) -/
+theorem agree_table_facts :
+    (∀ n ∈ reqValues T "capability" "name", Aa.Parse.CapW n) ∧ Aa.Parse.hasReq T "capability" "name" = true ∧
+    (∀ a ∈ reqValues T "ptrace" "access", a ≠ S "peer") ∧ Aa.Parse.hasReq T "ptrace" "access" = true ∧
+    (∀ a ∈ reqValues T "signal" "access", a ≠ S "peer" ∧ a ≠ S "set") ∧
+    Aa.Parse.hasReq T "signal" "access" = true ∧ Aa.Parse.hasReq T "signal" "set" = true := by
+  refine ⟨?_, ?_, ?_, ?_, ?_, ?_, ?_⟩ <;> decide +kernel
+
+/-- capability rules, every qualifier and every list of names: both readers give the rule with the names in table order -/
+theorem C12_readers_agree_capability (audit deny : Bool) (names : List Text)
+    (h : ∀ n ∈ names, n ∈ reqValues T "capability" "name") :
+    ∃ r, (Aa.Parse.parseCommaRules false (renderRule (capRule audit deny names) (padOf []) ++ S "\n")).bind
+          (Aa.Parse.newRules T) = .ok [r] ∧
+        Ref.read T (renderRule (capRule audit deny names) (padOf [])) = some r :=
+  ⟨_, Aa.Parse.parse_capability T audit deny names agree_table_facts.2.1
+      (fun n hn => ⟨agree_table_facts.1 n (h n hn), by simpa using h n hn⟩),
+    (C12_capability_all_lists audit deny names h).trans (by cases deny <;> rfl)⟩
+
+/-- ptrace rules, every qualifier, access list and keyword-like peer word -/
+theorem C12_readers_agree_ptrace (audit deny : Bool) (accs : List Text) (p : Text) (ha : accs ≠ [])
+    (h : ∀ a ∈ accs, a ∈ reqValues T "ptrace" "access") (hp : Aa.Parse.CapW p) :
+    ∃ r, (Aa.Parse.parseCommaRules false (renderRule (Aa.Parse.ptraceRule audit deny accs p) (padOf []) ++ S "\n")).bind
+          (Aa.Parse.newRules T) = .ok [r] ∧
+        Ref.read T (renderRule (Aa.Parse.ptraceRule audit deny accs p) (padOf [])) = some r :=
+  ⟨_, Aa.Parse.parse_ptrace T audit deny accs p ha agree_table_facts.2.2.2.1
+      (fun a hm => ⟨ptrace_access_words a (h a hm), by simpa using h a hm⟩)
+      (fun a hm => agree_table_facts.2.2.1 a (h a hm)) (Aa.Parse.capW_peerW hp),
+    (C12_ptrace_all audit deny accs p ha h hp).trans (by cases deny <;> rfl)⟩
+
+/-- signal rules, every qualifier, access list, signal list and keyword-like peer word -/
+theorem C12_readers_agree_signal (audit deny : Bool) (accs set : List Text) (p : Text) (ha : accs ≠ []) (hs : set ≠ [])
+    (h : ∀ a ∈ accs, a ∈ reqValues T "signal" "access") (h' : ∀ s ∈ set, s ∈ reqValues T "signal" "set")
+    (hp : Aa.Parse.CapW p) :
+    ∃ r, (Aa.Parse.parseCommaRules false (renderRule (Aa.Parse.signalRule audit deny accs set p) (padOf []) ++ S "\n")).bind
+          (Aa.Parse.newRules T) = .ok [r] ∧
+        Ref.read T (renderRule (Aa.Parse.signalRule audit deny accs set p) (padOf [])) = some r :=
+  ⟨_, Aa.Parse.parse_signal T audit deny accs set p ha hs agree_table_facts.2.2.2.2.2.1 agree_table_facts.2.2.2.2.2.2
+      (fun a hm => ⟨signal_words.1 a (h a hm), by simpa using h a hm⟩)
+      (fun a hm => ⟨signal_words.2 a (h' a hm), by simpa using h' a hm⟩)
+      (fun a hm => (agree_table_facts.2.2.2.2.1 a (h a hm)).1) (fun a hm => (agree_table_facts.2.2.2.2.1 a (h a hm)).2)
+      (Aa.Parse.capW_peerW hp),
+    (C12_signal_all audit deny accs set p ha hs h h' hp).trans (by cases deny <;> rfl)⟩
+
 end C12
